@@ -110,7 +110,23 @@ func (g *c08gen) failStmt() (string, string) {
 			return fmt.Sprintf("UPDATE tv SET n = 5, id = 10 / (id - %d);", kt), ""
 		}
 	}
-	switch g.r.Intn(22) {
+	switch g.r.Intn(26) {
+	case 22:
+		// multi-table DELETE: the first target is fine, a later one cannot be changed
+		o := map[string]string{"t0": "t1", "t1": "t0"}[t]
+		return fmt.Sprintf("DELETE %s, s FROM %s JOIN (SELECT id FROM %s) s ON %s.id = s.id;", t, t, o, t), ""
+	case 23:
+		o := map[string]string{"t0": "t1", "t1": "t0"}[t]
+		return fmt.Sprintf("DELETE %s, nosuch FROM %s JOIN %s ON %s.id = %s.id;", t, t, o, t, o), ""
+	case 24:
+		if hasTv {
+			return fmt.Sprintf("DELETE tv, s FROM tv JOIN (SELECT id FROM %s) s ON tv.id = s.id;", t), ""
+		}
+		o := map[string]string{"t0": "t1", "t1": "t0"}[t]
+		return fmt.Sprintf("DELETE %s, %s, nosuch FROM %s JOIN %s ON %s.id = %s.id;", t, o, t, o, t, o), ""
+	case 25:
+		o := map[string]string{"t0": "t1", "t1": "t0"}[t]
+		return fmt.Sprintf("UPDATE %s, s SET %s.n = %s.n + 7, s.id = 1 FROM %s JOIN (SELECT id FROM %s) s ON %s.id = s.id;", t, t, t, t, o, t), ""
 	case 19:
 		// the SELECT succeeds, the field list does not fit its result
 		name := fmt.Sprintf("f%d", g.nfail)
